@@ -185,7 +185,7 @@ def run(m, chk):
         "every call site on both the polynomial and the rational branch (ARG-FLOW), the refusal escapes as ValueError. "
         "Exactness when removable, the error bound and the insert/remove round trip are not decided."
     )
-    chk.decides = ["DEHOMOG-PAIR (points divided by a list of weights are stored with exactly those weights)", "LOOP-ACCUMULATE (the error handed to the gate is not overwritten per component in a loop)", "MEMO-KEY (no function on the path is memoised by the value of numbers / knot vectors)", "GATE-TOL", "COMMIT-LAST(update)", "N", "ARG-FLOW (nodes, tolerance)", "X-ESCAPE", "WEIGHT-HOMOG (control points a rational fit commits are of degree 0 in the weights)"]
+    chk.decides = ["ERROR-QUADRATIC (with interpolation constraints the reported error is the whole quadratic form in T, not the short form of the free minimiser)", "DEHOMOG-PAIR (points divided by a list of weights are stored with exactly those weights)", "LOOP-ACCUMULATE (the error handed to the gate is not overwritten per component in a loop)", "MEMO-KEY (no function on the path is memoised by the value of numbers / knot vectors)", "GATE-TOL", "COMMIT-LAST(update)", "N", "ARG-FLOW (nodes, tolerance)", "X-ESCAPE", "WEIGHT-HOMOG (control points a rational fit commits are of degree 0 in the weights)"]
     chk.not_decided = ["zero deviation when removable", "the error bound", "insert/remove round trip as values"]
     tolerance_gate(r, chk)
     rule_n(r, chk)
@@ -207,6 +207,9 @@ def run(m, chk):
     from .extra import loop_accumulate
 
     loop_accumulate(r, chk, ["curves.Curve.fit_curve", "curves.BaseCurve.update", "heavy.LeastSquare.func2func", "heavy.LeastSquare.spline2spline"])
+    from .extra import error_quadratic
+
+    error_quadratic(r, chk, "heavy.LeastSquare.func2func")
     from .extra import dehomog_pair
 
     dehomog_pair(r, chk, ["curves.Curve.fit_curve"], floor=1)
